@@ -287,6 +287,35 @@ func main() {
 		}
 	}
 	defer flush()
+	// directed family wrap-reorder (wrapreorder.go): all ISNs 2^32-k, all adjacent swaps and rotations
+	if counts["mixed"] > 0 || len(cfg.Args) > 0 && cfg.Args[0] == "wrapreorder" {
+		reps := 1
+		if cfg.Thorough() {
+			reps = 6
+		}
+		for i, k := range genWrapReorder(r.Fork(), reps) {
+			k2, err := parseKase(k.opText())
+			if err != nil {
+				panic(fmt.Sprintf("generated op does not parse: %v: %s", err, k.opText()))
+			}
+			batch = append(batch, pending{k: k2, class: "wrapreorder"})
+			if len(batch) >= 64 {
+				flush()
+			}
+			o.Stat("profile_wrapreorder", 1)
+			for _, n := range k.notes {
+				if n == "wstraddle" || n == "wedge" || n == "nosyn" || strings.HasPrefix(n, "wpd") || strings.HasPrefix(n, "wk") {
+					o.Stat("note_"+n, 1)
+				} else {
+					o.Stat("note_"+strings.TrimRight(n, "0123456789"), 1)
+				}
+			}
+			if i == 0 {
+				o.Sample(k.opText())
+			}
+		}
+		flush()
+	}
 	for _, pf := range profiles {
 		for i := 0; i < counts[pf.name]; i++ {
 			var k *kase
